@@ -31,16 +31,34 @@ def explain_diff(want, got, path='/'):
     go(want, got, path)
     return out
 
-def corr_strings(ctx, strings):
-    """printer model vs element.py on single strings"""
+# strings built around the markers the printers themselves write (a textual post-processing of the output would trip here)
+DIRECTED = ['<![CDATA[', 'x<![CDATA[', '<![CDATA[]]>', 'a<![CDATA[]]>b', ']]><![CDATA[', '<![CDATA[<![CDATA[', ']]>]]>', ']]]]><![CDATA[>', '&#13;', '&#13;\r', '\r<![CDATA[',
+            'Berlin\n', 'a\n', 'http://x/y#z\n', '\nBerlin', 'a\tb\n', 'x\r', 'x\r\n', ' x ', '&quot;', '"x\'', "'\"", '&amp;amp;', '<!--', '-->', '<?x?>', '&#x3c;', 'é\n', '%\n']
+
+def corr_strings(ctx, strings, oracle=None):
+    """printer model vs element.py on single strings; oracle = 'wf' (C01) or 'rt' (C02): the three real outputs wrapped in one
+    element and handed to expat"""
     from odf.element import Text, CDATASection, _quoteattr
     d = ctx.get_driver()
     for s in strings:
-        f = io.StringIO(); Text(s).toXml(0, f)
-        ctx.corr('Text.toXml', s, sx_to_pystr(d.call('xp_text', sx_str(s))), f.getvalue())
-        f = io.StringIO(); CDATASection(s).toXml(0, f)
-        ctx.corr('CDATASection.toXml', s, sx_to_pystr(d.call('xp_cdata', sx_str(s))), f.getvalue())
-        ctx.corr('_quoteattr', s, sx_to_pystr(d.call('xp_attr', sx_str(s))), _quoteattr(s))
+        f = io.StringIO(); Text(s).toXml(0, f); rt_ = f.getvalue()
+        ctx.corr('Text.toXml', s, sx_to_pystr(d.call('xp_text', sx_str(s))), rt_)
+        f = io.StringIO(); CDATASection(s).toXml(0, f); rc_ = f.getvalue()
+        ctx.corr('CDATASection.toXml', s, sx_to_pystr(d.call('xp_cdata', sx_str(s))), rc_)
+        ra_ = _quoteattr(s)
+        ctx.corr('_quoteattr', s, sx_to_pystr(d.call('xp_attr', sx_str(s))), ra_)
+        if oracle:
+            ctx.oracle_cases += 1
+            case = {'codepoints': [ord(c) for c in s]}
+            want = ''.join(c if X.xml10_char(ord(c)) else '\ufffd' for c in s)
+            for pos, docu in (('text', '<r>%s</r>' % rt_), ('cdata', '<r>%s</r>' % rc_), ('attribute', '<r a=%s/>' % ra_)):
+                ex = X.expat_parse(docu)
+                if ex[0] != 'ok':
+                    ctx.violation('not-well-formed', dict(case, position=pos), ex[1], 'accepted by expat', {'cause': 'illformed', 'rendering': 'Element.toXml'})
+                elif oracle == 'rt' and not any(discouraged(ord(c)) for c in s):
+                    got = ex[1][2][0][1] if pos == 'attribute' else ''.join(k[1] for k in ex[1][3])
+                    if got != want:
+                        ctx.violation('roundtrip', dict(case, position=pos), [ord(c) for c in got], [ord(c) for c in want], {'cause': 'other'})
         cls = ''.join(sorted(set(('S' if c in X.SIGNIF else 'W' if c in X.WS else 'C' if ord(c) < 32 or 0x7f <= ord(c) <= 0x9f
                                   else 'O' if not X.xml10_char(ord(c)) or discouraged(ord(c)) else 'L') for c in s)))
         ctx.bump('string-classes=' + (cls or '-'))
